@@ -386,6 +386,15 @@ func execManifest(ops []string, st *Stats) ([]string, []string) {
 					}
 				}
 				before, _ := os.Stat(s.path())
+				c1, d1 := s.vmf.Manifest().Creations, s.vmf.Manifest().Deletions
+				for _, c := range cs {
+					if c.Op == pb.ManifestChange_CREATE {
+						c1++
+					} else {
+						d1++
+					}
+				}
+				wantRewrite := d1 > s.thr && d1 > 10*(c1-d1)
 				err := s.vmf.AddChanges(cs)
 				after, _ := os.Stat(s.path())
 				d := dumpOf(s.vmf.Manifest())
@@ -394,6 +403,10 @@ func execManifest(ops []string, st *Stats) ([]string, []string) {
 					s.diverged = true
 					s.hist = map[int64]mdump{}
 					return manifestErrStr(err) + " " + d.String()
+				}
+				if rewrote := !os.SameFile(before, after); rewrote != wantRewrite {
+					// the rule as documented: "rewrite if it'd shrink by 1/10 and it's big enough to care"
+					fail(i, fmt.Sprintf("[rewrite-rule] rewrite=%v but deletions=%d creations=%d threshold=%d (rule: d > T && d > 10*(c-d))", rewrote, d1, c1, s.thr))
 				}
 				if !os.SameFile(before, after) {
 					st.Inc("add:rewrite")
@@ -970,9 +983,36 @@ func genRawManifest(rng *rand.Rand, st *Stats) []string {
 				file = file[:len(file)-rng.Intn(min(len(file)-7, 12))]
 			}
 		}
+		if !rawManifestSafe(file) {
+			// applyManifestChange allocates one map per level up to tc.Level: a frame with a
+			// valid CRC and a huge Level would exhaust memory on the real code.
+			st.Inc("raw:skipped-huge-level")
+			continue
+		}
 		ops = append(ops, fmt.Sprintf("rawreplay %s %d", hx(file), ext))
 	}
 	return ops
+}
+
+// rawManifestSafe: no decodable change with Level > 5000 in any frame of the image.
+func rawManifestSafe(b []byte) bool {
+	off := 8
+	for off+8 <= len(b) {
+		l := int(binary.BigEndian.Uint32(b[off : off+4]))
+		if l < 0 || off+8+l > len(b) {
+			return true
+		}
+		var cs pb.ManifestChangeSet
+		if err := proto.Unmarshal(b[off+8:off+8+l], &cs); err == nil {
+			for _, c := range cs.Changes {
+				if c.Level > 5000 {
+					return false
+				}
+			}
+		}
+		off += 8 + l
+	}
+	return true
 }
 
 // =====================================================================================
